@@ -72,6 +72,7 @@ func runTickerCase(c Case) Out {
 	res := make(chan tickRes, len(c.Ops)+1)
 	type window struct{ from, to time.Time }
 	win := map[int]*window{}
+	received := map[int]bool{}
 	launched, completed := 0, 0
 	for j, op := range c.Ops {
 		var f func() (int, time.Time, bool)
@@ -138,10 +139,17 @@ func runTickerCase(c Case) Out {
 		for _, r := range got {
 			o := r.out
 			if r.got {
+				// the earliest Tick not received yet whose window contains the stamp
 				o = 99
-				for tj, w := range win {
+				for tj := 0; tj <= j; tj++ {
+					w := win[tj]
+					if w == nil || received[tj] {
+						continue
+					}
 					if !r.stamp.Before(w.from) && (w.to.IsZero() || !r.stamp.After(w.to)) {
 						o = 100 + tj
+						received[tj] = true
+						break
 					}
 				}
 			}
